@@ -23,21 +23,27 @@
 (* is the business of ChainDB.tla).  All blocks are valid (C05/C07 cover   *)
 (* invalid ones).  The BP set stays the genesis list (heights < 300).      *)
 (*                                                                         *)
-(* Deliberate oddities of the code kept as they are (names in capitals are *)
-(* referred to in docs/notes/C08.md):                                      *)
+(* Oddities of the code kept as they are (names in capitals are referred   *)
+(* to in docs/notes/C08.md):                                               *)
 (*  U16      confirmsLeft is a uint16 and is decremented below zero        *)
 (*  BREAK0   the walk of getPreLIB stops at the first entry whose counter  *)
 (*           is zero, whether or not it is in the confirm range            *)
 (*  PERBLOCK confirmations are counted per block, not per producer, and    *)
-(*           the Confirms field of a header is not validated               *)
+(*           the Confirms field of a header is not validated (OPEN, F4)    *)
 (*  PARTIAL  calcLIB takes the (len-1)/3-th smallest of the proposals of   *)
 (*           the producers seen so far (not of all N producers)            *)
-(*  STALE    a rollback only overwrites proposals recomputed from the      *)
-(*           window; the others keep pointing into the abandoned branch    *)
-(*  UNCOND   the result of calcLIB is assigned unconditionally             *)
-(*  LAZY     after a restart the restored status is attached at the first  *)
-(*           Update only; until then libNo() is 0 (no veto, no refusal)    *)
 (*  H1       load() at height 1 rebuilds nothing (beg = end)               *)
+(* Three defects found with this model were repaired in the code; the      *)
+(* constant Fixes says which repairs the model contains (all of them in    *)
+(* every configuration that is checked or replayed; {} = the code before): *)
+(*  "attach" (b495bde5) the restored status is attached when the Status is *)
+(*           created; before, it was attached at the first Update only and *)
+(*           libNo() was 0 until then: no veto, no refusal (LAZY)          *)
+(*  "stale"  (a4f2be36) a rollback resets the proposals that point above   *)
+(*           the rollback target; before, they kept pointing into the      *)
+(*           abandoned branch (STALE)                                      *)
+(*  "mono"   (c846cf0d) the LIB is only replaced by a higher one; before,  *)
+(*           the result of calcLIB was assigned unconditionally (UNCOND)   *)
 (***************************************************************************)
 EXTENDS Integers, Sequences, FiniteSets, TLC, Util
 
@@ -50,11 +56,8 @@ CONSTANTS N,            \* number of block producers; BP = 0..N-1
           ByzMode,      \* "branch" = a Byzantine producer equivocates but fills Confirms the honest way on every branch;
                         \* "any"    = it also chooses Confirms freely from ByzRanges
           ByzRanges,    \* Confirms values available in mode "any"
-          Fixes         \* {} = the code as it is.  Names of proposed repairs switched on (design exploration only;
-                        \* every configuration whose behaviours are replayed on the code uses {}):
-                        \*  "attach" the restored status is attached when the Status is created (no LAZY window)
-                        \*  "stale"  a rollback resets the proposals that point above the rollback target (no STALE)
-                        \*  "mono"   the LIB is only ever raised (no UNCOND)
+          Fixes         \* repairs contained in the model: subset of {"attach", "stale", "mono"} (see the header);
+                        \* all three = the code as it is now, {} = the code before the repairs
 
 BP      == 0 .. (N - 1)
 Correct == BP \ Byz
@@ -130,7 +133,7 @@ CalcLIB(B, pr) ==
                /\ Cardinality({p \in ps : No(B, pr[p]) <= x}) >= k + 1
   IN {pr[p] : p \in {q \in ps : No(B, pr[q]) = v}}
 
-\* update() + updateLIB (UNCOND); the set of possible results
+\* update() + updateLIB (only raised: "mono"); the set of possible results
 UpdateSt(B, S) ==
   LET w == PreLIB(S.cf)
   IN IF w.hit = 0 THEN {[S EXCEPT !.cf = w.cf]}
@@ -159,7 +162,8 @@ RECURSIVE TmpFold(_, _, _, _, _)
 TmpFold(B, tip, T, h, end) ==
   IF h > end THEN T ELSE TmpFold(B, tip, TmpStep(B, T, AncAt(B, tip, h)), h + 1, end)
 
-\* libStatus.load(end) over the main chain of `tip` (begRecoBlockNo + loadPlibStatus + merge, STALE, H1)
+\* rollbackStatusTo's reset of the proposals above the target ("stale"), then libStatus.load(end) over the main chain
+\* of `tip` (begRecoBlockNo + loadPlibStatus + merge, H1)
 ResetStale(B, pr, end) ==
   IF "stale" \in Fixes THEN [p \in BP |-> IF pr[p] # NoPl /\ No(B, pr[p]) > end THEN 0 ELSE pr[p]] ELSE pr
 
@@ -186,7 +190,7 @@ AppendAll(B, Ss, path, k, self) ==
 StOf(n) == [cf |-> n.cf, pr |-> n.pr, lib |-> n.lib, lpb |-> n.lpb]
 WithSt(n, S) == [n EXCEPT !.cf = S.cf, !.pr = S.pr, !.lib = S.lib, !.lpb = S.lpb]
 
-\* the LIB number the veto and the timestamp check see (LAZY)
+\* the LIB number the veto and the timestamp check see (0 while the status is not attached)
 EffLib(B, n) == IF n.ld THEN No(B, n.lib) ELSE 0
 
 \* ---------------------------------------------------------------- the chain service handling one block
@@ -256,7 +260,7 @@ Deliver(i, b) ==
   /\ UNCHANGED <<blk, restarts>>
 
 \* stop and start on the same stores: NewStatus -> bootLoader.load (decode the saved status, load(best.no));
-\* the block factory worker starts from the restored LpbNo; the status is attached lazily (LAZY)
+\* the block factory worker starts from the restored LpbNo; the status is attached at once ("attach")
 Restart(i) ==
   /\ restarts < MaxRestarts
   /\ node[i].best # 0
